@@ -1,7 +1,284 @@
 import Driver.Common
-open Lean Drv
+import NriModel.Locks
+open Lean Drv Nri Nri.Locks
+
+/-!
+Driver for C08. One case = one recorded history of a real `Adaptation`:
+`in`  = the schedule-generator configuration (plugins, creator goroutines, order of the two
+        halves of a creation, GOMAXPROCS, …);
+`obs` = the log, stamped by one global counter: block acquired / released, relay (CreateContainer
+        returned) and record (store add) of each container, SyncFn entered / snapshot taken /
+        about to return, plus what each plugin received (Synchronize ids, CreateContainer ids)
+        and the runtime's final store.
+
+`agree` = trace acceptance: the history, with the two unobservable steps `activate p; syncEnd p`
+          placed right after SyncFn returned, is accepted by `Nri.Locks.step?`, the store the
+          model has at each snapshot is the one SyncFn read, and what each plugin received is
+          what the model's plugin state holds at the end.
+`spec`  = the property evaluated directly on the log, without the model: exactly-once per plugin
+          against the final store; no SyncFn interval overlaps a block interval; no plugin
+          received a creation whose block was acquired before its synchronisation returned;
+          every registration completed.
+-/
 namespace Drv.C08
-/-- placeholder until the property's driver is written -/
-def judge (_ : Json) : Except String Verdict := .error "C08 driver not implemented"
+
+def natOf (j : Json) : Except String Nat :=
+  match j.getNat? with
+  | .ok n => pure n
+  | .error _ => throw s!"not a natural number: {j.compress}"
+
+def natArr (j : Json) : Except String (Array Nat) :=
+  match j with
+  | .arr a => a.mapM natOf
+  | .null => pure #[]
+  | _ => throw "not an array"
+
+def arrOf (j : Json) (k : String) : Except String (Array Json) :=
+  match j.getObjVal? k with
+  | .ok (.arr a) => pure a
+  | .ok .null => pure #[]
+  | _ => throw s!"field {k}: not an array"
+
+structure Sync where
+  s : Nat
+  n : Nat
+  ids : Array Nat
+  deriving Inhabited
+
+structure Plug where
+  p : Nat
+  started : Bool
+  err : String
+  syncs : Array Sync
+  got : Array Nat
+
+def sorted (a : Array Nat) : Array Nat := a.qsort (· < ·)
+
+/-- first element that does not occur exactly once in `have_` relative to `want` (both sorted):
+    `(c, count)` -/
+partial def firstOdd (want have_ : Array Nat) (i j : Nat) : Option (Nat × Nat) :=
+  if h : i < want.size then
+    let c := want[i]
+    -- count occurrences of c in have_ from j
+    let rec cnt (k n : Nat) : Nat × Nat :=
+      if h2 : k < have_.size then
+        if have_[k] == c then cnt (k + 1) (n + 1) else (k, n)
+      else (k, n)
+    if h3 : j < have_.size then
+      if have_[j] < c then some (have_[j], 1000000)  -- something outside the store
+      else
+        let (k, n) := cnt j 0
+        if n == 1 then firstOdd want have_ (i + 1) k else some (c, n)
+    else some (c, 0)
+  else if h3 : j < have_.size then some (have_[j], 1000000) else none
+
+structure Direct where
+  ok : Bool := true
+  sig : String := ""
+  why : String := ""
+
+def kindName : Nat → String
+  | 0 => "block" | 1 => "relay" | 2 => "record" | 3 => "unblock"
+  | 4 => "syncBegin" | 5 => "snapshot" | 6 => "syncRet" | _ => "?"
+
+def judge (j : Json) : Except String Verdict := do
+  let inp ← getObj j "in"
+  let obs ← getObj j "obs"
+  let kind := getStrD inp "kind"
+  let status := getStrD obs "status"
+  let note := getStrD obs "note"
+  if kind == "worker" || status == "crashed" then
+    return { agree := false, spec := true, why := s!"harness worker crashed: {note}", cover := ["crashed"] }
+  if status == "error" then
+    return { agree := false, spec := true, why := s!"harness error: {note}", cover := ["error"] }
+  let P := getNatD inp "P"
+  let pre := getNatD inp "pre"
+  let procs := getNatD inp "procs"
+  let order := getStrD inp "order"
+  -- decode
+  let evJ ← arrOf obs "ev"
+  let ev ← evJ.mapM natArr
+  let snapsJ ← arrOf obs "snaps"
+  let snaps ← snapsJ.mapM natArr
+  let store ← natArr (← getObj obs "store")
+  let plugsJ ← arrOf obs "plugins"
+  let plugs ← plugsJ.mapM fun pj => do
+    let syJ ← arrOf pj "syncs"
+    let sy ← syJ.mapM fun sj => do
+      pure { s := ← getNat sj "s", n := ← getNat sj "n", ids := ← natArr (← getObj sj "ids") : Sync }
+    pure { p := ← getNat pj "p", started := getBoolD pj "started", err := getStrD pj "err",
+           syncs := sy, got := ← natArr (← getObj pj "got") : Plug }
+  for e in ev do
+    if e.size < 3 then throw "malformed event"
+  -- stamps strictly increasing
+  let mut last := 0
+  for e in ev do
+    if e[1]! ≤ last then throw s!"log not ordered at seq {e[1]!}"
+    last := e[1]!
+  -- which plugin was being synchronised by SyncFn invocation n (through the marker pod)
+  let mut pidOf : Array (Option Nat) := Array.replicate snaps.size none
+  let mut dupMarker := false
+  for pl in plugs do
+    for sy in pl.syncs do
+      if sy.n < pidOf.size then
+        if (pidOf[sy.n]!).isSome then dupMarker := true
+        pidOf := pidOf.set! sy.n (some pl.p)
+  let pid (n : Nat) : Nat := match pidOf[n]? with
+    | some (some p) => p
+    | _ => 1000 + n
+  -- ===== the property, directly on the log =====
+  let mut d : Direct := {}      -- progress
+  let mut dB : Direct := {}     -- blocks hold
+  let mut dE : Direct := {}     -- exactly once
+  let fail (d : Direct) (sig why : String) : Direct := if d.ok then { ok := false, sig := sig, why := why } else d
+  if status == "blocked" then
+    d := fail d "C08:progress:blocked" s!"registrations did not complete: {note}"
+  -- blocks hold
+  let mut readers := 0
+  let mut syncing := 0
+  let mut nBlocks := 0
+  let mut nC := 0
+  for e in ev do
+    match e[0]! with
+    | 0 =>
+      if syncing > 0 then
+        dB := fail dB "C08:blocks-hold:block-during-sync" s!"block {e[2]!} acquired at seq {e[1]!} while a SyncFn was running"
+      readers := readers + 1
+      if e[2]! + 1 > nBlocks then nBlocks := e[2]! + 1
+    | 3 => readers := readers - 1
+    | 4 =>
+      if readers > 0 then
+        dB := fail dB "C08:blocks-hold:sync-during-block" s!"SyncFn #{e[2]!} entered at seq {e[1]!} while {readers} sync block(s) were held"
+      if syncing > 0 then
+        dB := fail dB "C08:blocks-hold:two-syncs" s!"SyncFn #{e[2]!} entered at seq {e[1]!} while another SyncFn was running"
+      syncing := syncing + 1
+    | 6 => syncing := syncing - 1
+    | 1 => if e[3]! + 1 > nC then nC := e[3]! + 1
+    | 2 => if e[3]! + 1 > nC then nC := e[3]! + 1
+    | _ => pure ()
+  -- stamps needed below
+  let mut blockAt : Array Nat := Array.replicate nBlocks 0
+  let mut blockOfC : Array Nat := Array.replicate nC 0
+  let mut retAt : Array Nat := Array.replicate snaps.size 0
+  let mut retErr : Array Nat := Array.replicate snaps.size 0
+  let mut beginAt : Array Nat := Array.replicate snaps.size 0
+  for e in ev do
+    match e[0]! with
+    | 0 => blockAt := blockAt.set! e[2]! e[1]!
+    | 1 => blockOfC := blockOfC.set! e[3]! e[2]!
+    | 4 => beginAt := beginAt.set! e[2]! e[1]!
+    | 6 => retAt := retAt.set! e[2]! e[1]!; retErr := retErr.set! e[2]! (e[3]?.getD 0)
+    | _ => pure ()
+  -- exactly once, per plugin, against the final store
+  let sstore := sorted store
+  let mut cover : List String := ["trace", s!"kind:{kind}", s!"procs:{procs}", s!"order:{order}", s!"P:{P}",
+    s!"G:{getNatD inp "G"}", s!"contend:{getNatD inp "contend"}",
+    (if getNatD inp "synclag_us" > 0 then "synclag:yes" else "synclag:no"), s!"batch:{getNatD inp "batch"}"]
+  let mut raced := 0
+  for pl in plugs do
+    if pl.syncs.size == 0 then
+      if status != "blocked" then
+        d := fail d "C08:progress:never-synchronised" s!"plugin {pl.p} was never synchronised (Start error: {pl.err})"
+      cover := "reg:none" :: cover
+    else if pl.syncs.size > 1 then
+      dE := fail dE "C08:exactly-once:two-snapshots" s!"plugin {pl.p} was synchronised {pl.syncs.size} times"
+    else
+      let sy := pl.syncs[0]!
+      if !pl.started then
+        d := fail d "C08:progress:start-failed" s!"plugin {pl.p}: stub.Start failed: {pl.err}"
+      if retErr[sy.n]?.getD 0 != 0 then
+        cover := "reg:sync-failed" :: cover
+      else
+        let have_ := sorted (sy.ids ++ pl.got)
+        match firstOdd sstore have_ 0 0 with
+        | none => pure ()
+        | some (c, n) =>
+          let inSnap := sy.ids.contains c
+          let inGot := pl.got.contains c
+          if n == 0 then
+            dE := fail dE "C08:exactly-once:neither" s!"plugin {pl.p} never learnt of container {c}: not in its snapshot (SyncFn #{sy.n}) and no creation request"
+          else if n == 1000000 then
+            dE := fail dE "C08:exactly-once:unknown-container" s!"plugin {pl.p} was told of container {c} which is not in the runtime's store"
+          else if inSnap && inGot then
+            dE := fail dE "C08:exactly-once:both" s!"plugin {pl.p} learnt of container {c} twice: in its snapshot (SyncFn #{sy.n}) and by a creation request"
+          else
+            dE := fail dE "C08:exactly-once:duplicate" s!"plugin {pl.p} learnt of container {c} {n} times"
+        -- activated while a block was held?
+        let r := retAt[sy.n]?.getD 0
+        for c in pl.got do
+          if c < blockOfC.size then
+            let b := blockOfC[c]!
+            if blockAt[b]?.getD 0 < r then
+              dB := fail dB "C08:blocks-hold:activated-during-block" s!"plugin {pl.p} received the creation of container {c} although its block {b} was acquired before the plugin's synchronisation returned"
+        -- did the registration land in the middle of the creation stream?
+        if pre < sy.ids.size && sy.ids.size < store.size then
+          raced := raced + 1
+          cover := "reg:raced" :: cover
+        else
+          cover := "reg:quiet" :: cover
+        cover := (if sy.ids.size == 0 then "snap:empty" else if sy.ids.size == store.size then "snap:full" else "snap:partial") :: cover
+  cover := (if ev.size < 100 then "events:<100" else if ev.size < 1000 then "events:<1000" else "events:>=1000") :: cover
+  -- ===== trace acceptance by the lock model =====
+  let mut s : State := init
+  let mut rej : Option String := none
+  let mut idx := 0
+  let stepE (s : State) (e : Ev) : Option State := step? s e
+  for e in ev do
+    if rej.isNone then
+      let k := e[0]!
+      let evs : List Ev := match k with
+        | 0 => [.block e[2]!]
+        | 1 => [.relay e[2]! e[3]!]
+        | 2 => [.record e[2]! e[3]!]
+        | 3 => [.unblock e[2]!]
+        | 4 => [.syncBegin (pid e[2]!)]
+        | 5 => [.snapshot (pid e[2]!)]
+        | 6 => if e[3]?.getD 0 == 0 then [.activate (pid e[2]!), .syncEnd (pid e[2]!)] else [.abort (pid e[2]!)]
+        | _ => []
+      for me in evs do
+        if rej.isNone then
+          match stepE s me with
+          | some s' => s := s'
+          | none =>
+            rej := some s!"the lock model refuses event #{idx} ({kindName k} {e[2]!}{if e.size > 3 then s!" {e[3]!}" else ""}, seq {e[1]!}) in a state with {s.holding.length} block(s) held and writer {s.writer}"
+      if rej.isNone && k == 5 then
+        let want := (snaps[e[2]!]?).getD #[]
+        if s.store.reverse != want.toList then
+          rej := some s!"SyncFn #{e[2]!} read a store of {want.size} containers, the model's store has {s.store.length} at that point"
+    idx := idx + 1
+  let mut agreeWhy := ""
+  match rej with
+  | some m => agreeWhy := m
+  | none =>
+    if dupMarker then agreeWhy := "two plugins report the same SyncFn invocation"
+    if s.store.reverse != store.toList then agreeWhy := "final store differs from the model's"
+    if !s.holding.isEmpty || s.writer.isSome then
+      if status == "ok" then agreeWhy := "history ends with the sync lock held"
+    for pl in plugs do
+      if pl.syncs.size == 1 && agreeWhy == "" then
+        let sy := pl.syncs[0]!
+        let x := s.pl pl.p
+        if retErr[sy.n]?.getD 0 == 0 then
+          if x.phase != .active then agreeWhy := s!"plugin {pl.p} is not active in the model"
+          else if x.snap.reverse != sy.ids.toList then
+            agreeWhy := s!"plugin {pl.p} received a snapshot of {sy.ids.size} containers, the model's has {x.snap.length}"
+          else if sorted x.got.toArray != sorted pl.got then
+            agreeWhy := s!"plugin {pl.p} received {pl.got.size} creation requests, the model relays {x.got.length} to it"
+        else if !pl.got.isEmpty || x.phase != .idle then
+          agreeWhy := s!"plugin {pl.p} failed its synchronisation (not activated in the model) but received {pl.got.size} creation requests"
+        if ((snaps[sy.n]?).getD #[]) != sy.ids then
+          agreeWhy := s!"plugin {pl.p} received a snapshot different from the one SyncFn #{sy.n} handed to the callback"
+  let agree := agreeWhy == ""
+  if !dE.ok then cover := "viol:exactly-once" :: cover
+  if !dB.ok then cover := "viol:blocks-hold" :: cover
+  if !d.ok then cover := "viol:progress" :: cover
+  let first := if !dE.ok then dE else if !dB.ok then dB else d
+  let others := (if !dE.ok && !dB.ok then s!" [also: {dB.why}]" else "") ++
+    (if (!dE.ok || !dB.ok) && !d.ok then s!" [also: {d.why}]" else "")
+  let why := if !first.ok then first.why ++ others else agreeWhy
+  pure { agree := agree, spec := first.ok, why := why, sig := first.sig, cover := cover,
+         nontrivial := raced > 0 || kind == "hold", excluded := false,
+         model := Json.mkObj [("events", ev.size), ("raced", raced), ("accepted", rej.isNone)] }
+
 def main : IO UInt32 := runLines judge
 end Drv.C08
